@@ -97,6 +97,11 @@ func toNumber(v any) any {
 			return nil
 		}
 
+		if !strings.ContainsAny(v, "0123456789") {
+			// nor is a sign or a point without a digit ("." parses as 0) a number
+			return nil
+		}
+
 		var d decimal128.Decimal
 		if err := d.UnmarshalJSON([]byte(v)); err != nil {
 			return nil
